@@ -1127,12 +1127,19 @@ where
         Self: Send + Sync,
     {
         let self_ = RootedThread::new_root(self.borrow());
-        let level = self_.context().stack.get_frames().len();
+        let (level, stack_len) = {
+            let context = self_.context();
+            (context.stack.get_frames().len(), context.stack.len())
+        };
 
         self.call_thunk(closure).await.or_else(move |mut err| {
             let mut context = self_.context();
             let stack = StackFrame::<State>::current(&mut context.stack);
             let new_trace = reset_stack(stack, level)?;
+            // `reset_stack` only removes the frames, also remove the values they left behind so
+            // that the stack can be reused
+            let excess = context.stack.len().saturating_sub(stack_len);
+            context.stack.pop_many(excess);
             if let Error::Panic(_, ref mut trace) = err {
                 *trace = Some(new_trace);
             }
@@ -1148,11 +1155,18 @@ where
         Self: Send + Sync,
     {
         let self_ = RootedThread::new_root(self.borrow());
-        let level = self_.context().stack.get_frames().len();
+        let (level, stack_len) = {
+            let context = self_.context();
+            (context.stack.get_frames().len(), context.stack.len())
+        };
         self.execute_io(value).await.or_else(move |mut err| {
             let mut context = self_.context();
             let stack = StackFrame::<State>::current(&mut context.stack);
             let new_trace = reset_stack(stack, level)?;
+            // `reset_stack` only removes the frames, also remove the values they left behind so
+            // that the stack can be reused
+            let excess = context.stack.len().saturating_sub(stack_len);
+            context.stack.pop_many(excess);
             if let Error::Panic(_, ref mut trace) = err {
                 *trace = Some(new_trace);
             }
